@@ -347,6 +347,12 @@ fn run_bin_case(env: &Env, c: &BinCase, st: &mut Stats) -> Vec<Violation> {
             return vec![];
         }
     };
+    if out.code != Some(0) && c.use_toml && c.toml_path_missing {
+        // --path overrides the configured directory, but a tool may still refuse a configuration that
+        // names a directory which does not exist: how such a run ends is not stated
+        st.count("runs_refused_because_of_a_missing_configured_directory");
+        return vec![];
+    }
     if out.code != Some(0) {
         let kind = if !c.use_path && c.use_toml { "toml-path" } else { "other" };
         return vec![Violation::new("binary", format!("directory:run-fails:{kind}"), format!("solstat exits with {:?} although the directory to analyse exists: {}", out.code, out.stderr), case)];
